@@ -43,6 +43,8 @@ Check (C20_shared_refuted :
   exists sc cs i o t', nth_error (ops sc) i = Some o
     /\ nth_error (thr (run_coarse true cs (init sc))) i = Some t' /\ finished t' = true
     /\ out t' <> spec_out (members sc) o).
+Check (C20_parallel_is_sequential : forall l, par_consumers l = seq_consumers l).
+Print Assumptions C20_parallel_is_sequential.
 Print Assumptions C20_independent.
 Print Assumptions C20_alone_or_not.
 Print Assumptions C20_solo.
